@@ -233,3 +233,47 @@ func ZZ_C18_HTTPGateAndConnect() {
 		verifAssert(hy.tcp >= 1 && hy.addr == "example.com:80", "a plain request dials the requested host")
 	}
 }
+
+// a Hysteria client whose dial for one destination takes a while
+type zzHy2 struct {
+	gate chan struct{}
+	ups  map[string]*zzUp
+}
+
+func (h *zzHy2) TCP(addr string) (net.Conn, error) {
+	if addr == "slow.example:443" {
+		<-h.gate
+	}
+	u := &zzUp{done: make(chan struct{})}
+	h.ups[addr] = u
+	return u, nil
+}
+func (h *zzHy2) UDP() (client.HyUDPConn, error) { return nil, errors.New("no udp") }
+func (h *zzHy2) Close() error                   { return nil }
+
+// Two local clients at once: the first pipelines payload behind its CONNECT
+// header while its upstream dial is still in progress; meanwhile a second
+// client connects, sends its own CONNECT with payload and is served. Each
+// upstream receives exactly its own client's payload - nothing of the other
+// connection leaks into it (buffers taken from pools included).
+//
+//verif:harness kind=api replay=native+sched unwind=400 preempt=1 bound=2-connections,payload=3B-each,one-preemption
+func ZZ_C18_HTTPTwoConnections() {
+	hy := &zzHy2{gate: make(chan struct{}), ups: map[string]*zzUp{}}
+	s := &Server{HyClient: hy}
+	pa, pb := verifBytes("payloadA", 3), verifBytes("payloadB", 3)
+	a := &zzConn{segs: [][]byte{append([]byte("CONNECT slow.example:443 HTTP/1.1\r\nHost: slow.example:443\r\n\r\n"), pa...)}}
+	b := &zzConn{segs: [][]byte{append([]byte("CONNECT fast.example:443 HTTP/1.1\r\nHost: fast.example:443\r\n\r\n"), pb...)}}
+	go s.dispatch(a)
+	verifQuiesce() // A is waiting for its dial
+	go s.dispatch(b)
+	verifQuiesce() // B has been served completely
+	ub := hy.ups["fast.example:443"]
+	verifAssert(ub != nil && len(ub.got) == 3 && ub.got[0] == pb[0] && ub.got[1] == pb[1] && ub.got[2] == pb[2], "the second client's payload reaches its own upstream")
+	close(hy.gate)
+	verifQuiesce()
+	ua := hy.ups["slow.example:443"]
+	verifAssert(ua != nil && len(ua.got) == 3, "the first client's pipelined bytes reach its upstream, exactly once")
+	verifAssert(ua.got[0] == pa[0] && ua.got[1] == pa[1] && ua.got[2] == pa[2], "unmodified: nothing another connection sent in the meantime replaces them")
+	verifCover("both-served")
+}
